@@ -23,6 +23,8 @@ def run(ctx):
     # (the variant {"seq": true} above, replayed like the base configuration)
     # what the stream remembers is longer than the abstract state: EVERY sequence of 12 offers that climbs by one or steps two back
     c.graph_leg(ctx, "Watermark.tla", "watermark", "Gen_Watermark_climb.cfg", {}, 0, 13, 13, histbudget=3000000)
+    if not q:   # three choices per offer (one above / equal to / two below the largest timestamp), every sequence of 10 offers
+        c.graph_leg(ctx, "Watermark.tla", "watermark", "Gen_Watermark_climb3.cfg", {}, 0, 11, 11, histbudget=3000000)
     ctx.cov["exhaustive"] = True
     ctx.cov["rule"] = ("design level, unbounded: Apalache proves IndInv (watermark equation, monotonicity, late-iff-below, exactly-once, "
                        "statistics identities, strategy obeyed) inductive for WatermarkInd.tla over all naturals; code level: the complete reachable graph of Watermark.tla over (delay, strategy, lateness) x (watermark, max timestamp) "
